@@ -66,13 +66,13 @@ type query struct {
 }
 
 type recorder struct {
-	mu        sync.Mutex
-	queries   []query
-	delivered []delivery
-	gate      chan struct{} // when non-nil the callback blocks until it is closed
-	entered   chan struct{}
-	sentinel  chan struct{}
-	hold      chan struct{}
+	mu       sync.Mutex
+	queries  []query
+	queued   []report.SessReport
+	gate     chan struct{} // when non-nil the callback blocks until it is closed
+	entered  chan struct{}
+	sentinel chan struct{}
+	hold     chan struct{}
 }
 
 type delivery struct {
@@ -81,17 +81,28 @@ type delivery struct {
 	flags uint32
 }
 
+// NotifySessReport keeps the notification as it was handed over, like the PFCP server, which only queues it and looks at
+// the reports later on another goroutine: what it says is read when the history is evaluated (deliveries()).
 func (r *recorder) NotifySessReport(sr report.SessReport) {
 	r.mu.Lock()
 	defer r.mu.Unlock()
 	if sr.SEID == sentinelSEID {
 		return
 	}
-	for _, rep := range sr.Reports {
-		if u, ok := rep.(report.USAReport); ok {
-			r.delivered = append(r.delivered, delivery{sr.SEID, u.URRID, u.USARTrigger.Flags})
+	r.queued = append(r.queued, sr)
+}
+
+// deliveries reads the queued notifications; call with r.mu held and the periodic server idle.
+func (r *recorder) deliveries() []delivery {
+	var out []delivery
+	for _, sr := range r.queued {
+		for _, rep := range sr.Reports {
+			if u, ok := rep.(report.USAReport); ok {
+				out = append(out, delivery{sr.SEID, u.URRID, u.USARTrigger.Flags})
+			}
 		}
 	}
+	return out
 }
 func (r *recorder) PopBufPkt(uint64, uint16) ([]byte, bool) { return nil, false }
 
@@ -287,7 +298,7 @@ func runA(c CaseA) (v *vcore.Violation, stt statsA) {
 	// ---- compare
 	rec.mu.Lock()
 	queries := append([]query(nil), rec.queries...)
-	delivered := append([]delivery(nil), rec.delivered...)
+	delivered := rec.deliveries()
 	rec.mu.Unlock()
 	// queries with an empty expected set may or may not reach the callback
 	qi := 0
